@@ -11,6 +11,9 @@ GUARD = "IPHREEQC_VERIF"
 
 VARIANTS = {
     "asan":  "-O1 -g -fsanitize=address,undefined -fno-sanitize-recover=undefined -fno-omit-frame-pointer -fsanitize-ignorelist=" + os.path.join(os.path.dirname(os.path.dirname(os.path.abspath(__file__))), "sim", "ubsan_ignore.txt"),
+    # C08 (damaged input): memory errors, wild object calls and crashes, without the arithmetic-conversion and
+    # null-reference-binding checks of -fsanitize=undefined (see DESIGN 8.7: the unchanged tree has dozens of such sites behind edge numbers)
+    "asanlite": "-O1 -g -fsanitize=address,vptr,bounds,return,unreachable -fno-sanitize-recover=all -fno-omit-frame-pointer -fsanitize-ignorelist=" + os.path.join(os.path.dirname(os.path.dirname(os.path.abspath(__file__))), "sim", "ubsan_ignore.txt"),
     "tsan":  "-O1 -g -fsanitize=thread -fno-omit-frame-pointer",
     "plain": "-O2 -g",
 }
